@@ -42,6 +42,10 @@ def corr(ctx, drv):
         sub = cases if "NUMBA_BOUNDSCHECK" in env else cases[:6]
         res = common.run_in_mode(PROP, env, sub)
         for (k, p), msgs in zip(sub, res):
+            key = classify("wellformed", p, msgs) if msgs else None
+            if key:        # a listed finding (D13) also shows in the other execution modes: reported as such, not as a broken tie
+                ctx.oracle_case("wellformed", p, msgs, key=key, nontrivial=True)
+                continue
             ctx.corr_case("mode_" + "_".join(env), p, msgs, nontrivial=True)
         ctx.count("mode_" + "_".join(env), len(sub))
 
@@ -140,6 +144,21 @@ def run_case(kind, p):
     return msgs[:8]
 
 
+def classify(kind, p, msgs):
+    """known finding D13 seen through C04: BackgroundSubtraction.get_mask(frame.shape) is all-NaN when the negative ring has no
+    pixel inside a very small frame; the full-frame method, which asks for a frame-sized mask, then reports NaN heights.
+    Keyed to the cause: pattern kind, the ring really has no pixel inside this frame shape, and only full-frame outputs fail."""
+    if p["pattern"]["kind"] != "background_subtraction" or not msgs:
+        return None
+    if not all(m.startswith("full(") or m.startswith("process_frames_full") for m in msgs):
+        return None
+    from libertem_blobfinder.base import masks
+    shape = tuple(p["shape"])
+    ring = masks.ring(centerX=shape[1] // 2, centerY=shape[0] // 2, imageSizeX=shape[1], imageSizeY=shape[0],
+                      radius=p["pattern"]["radius_outer"], radius_inner=p["pattern"]["radius"], antialiased=True)
+    return "D13" if ring.sum() == 0 else None
+
+
 def search(ctx, boost=1, focus=()):
     rng = np.random.default_rng(ctx.seed + 1004)
     n = (240 if ctx.tier == "thorough" else 48) * boost
@@ -148,6 +167,7 @@ def search(ctx, boost=1, focus=()):
         c = int(np.ceil(p["pattern"]["search"]))
         pk = np.asarray(p["peaks"])
         border = bool(np.any(pk - c < 0) or np.any(pk[:, 0] + c > p["shape"][0]) or np.any(pk[:, 1] + c > p["shape"][1]))
-        ctx.oracle_case("wellformed", p, run_case("wellformed", p),
+        msgs_ = run_case("wellformed", p)
+        ctx.oracle_case("wellformed", p, msgs_, key=classify("wellformed", p, msgs_) if msgs_ else None,
                         nontrivial=border or p["frame_kind"] in ("const", "zero", "hot"))
         ctx.count("frame_" + p["frame_kind"])
